@@ -23,9 +23,9 @@ Print Assumptions C12_failure_is_remembered.
    fault - the scheduled retry with an empty batch, or the next event, full or partial -
    succeeds and leaves the files, and the haproxy the update reloads, exactly those of the
    current state *)
-Theorem C12_retry_converges : forall e dn, shard_range e ->
-  forall h, wf_hist e dn inst_empty h ->
-  forall l, wf_batch e dn (i_cfg (run_f e inst_empty h)) l ->
+Theorem C12_retry_converges : forall e, shard_range e ->
+  forall h, wf_hist e inst_empty h ->
+  forall l, wf_batch e (i_cfg (run_f e inst_empty h)) l ->
     let r := step_f e [] (run_f e inst_empty h) l in
     snd r = false /\ i_failed (fst r) = false /\
     disk_ok e (i_cfg (fst r)) (i_disk (fst r)) /\
@@ -36,9 +36,9 @@ Print Assumptions C12_retry_converges.
 (* ... which is the state of the execution that suffers no fault ([erase h] = the same batches,
    no fault armed): after the retry, the files and the reloaded haproxy of the execution that
    suffered the faults are exactly the state the fault-free execution is in - as its own files are *)
-Theorem C12_retry_equals_fault_free : forall e dn, shard_range e ->
-  forall h, wf_hist e dn inst_empty h ->
-  forall l, wf_batch e dn (i_cfg (run_f e inst_empty h)) l ->
+Theorem C12_retry_equals_fault_free : forall e, shard_range e ->
+  forall h, wf_hist e inst_empty h ->
+  forall l, wf_batch e (i_cfg (run_f e inst_empty h)) l ->
     let faulty := fst (step_f e [] (run_f e inst_empty h) l) in
     let faultfree := fst (step_f e [] (run_f e inst_empty (erase h)) l) in
     disk_ok e (i_cfg faultfree) (i_disk faulty) /\ disk_ok e (i_cfg faultfree) (i_disk faultfree) /\
@@ -48,9 +48,9 @@ Print Assumptions C12_retry_equals_fault_free.
 
 (* more generally: whatever faults are armed, an update that reports success has left files
    (and, inline, a running haproxy) that are exactly those of the current state *)
-Theorem C12_success_is_convergence : forall e dn, shard_range e ->
-  forall h, wf_hist e dn inst_empty h ->
-  forall l fs s', wf_batch e dn (i_cfg (run_f e inst_empty h)) l -> armed fs FReloadSilent = false ->
+Theorem C12_success_is_convergence : forall e, shard_range e ->
+  forall h, wf_hist e inst_empty h ->
+  forall l fs s', wf_batch e (i_cfg (run_f e inst_empty h)) l -> armed fs FReloadSilent = false ->
     step_f e fs (run_f e inst_empty h) l = (s', false) ->
     i_failed s' = false /\ disk_ok e (i_cfg s') (i_disk s') /\
     (inline e = true -> exists r, i_running s' = Some r /\ disk_ok e (i_cfg s') r).
@@ -59,9 +59,9 @@ Print Assumptions C12_success_is_convergence.
 
 (* a reload issued through the reload queue is retried by the queue: once one attempt
    succeeds the running haproxy has loaded the files of the current state *)
-Theorem C12_retry_converges_reload_queue : forall e dn, shard_range e -> inline e = false ->
-  forall h, wf_hist e dn inst_empty h ->
-  forall l fs s', wf_batch e dn (i_cfg (run_f e inst_empty h)) l -> armed fs FReloadSilent = false ->
+Theorem C12_retry_converges_reload_queue : forall e, shard_range e -> inline e = false ->
+  forall h, wf_hist e inst_empty h ->
+  forall l fs s', wf_batch e (i_cfg (run_f e inst_empty h)) l -> armed fs FReloadSilent = false ->
     step_f e fs (run_f e inst_empty h) l = (s', false) ->
   forall results, i_pending s' = true -> In true results ->
     let s'' := reload_attempts results s' in
@@ -74,17 +74,17 @@ Print Assumptions C12_retry_converges_reload_queue.
    whatever the directory holds (files of an interrupted update, shard files of backends that
    are gone, files of shards beyond a smaller shard count); the reconciliations that follow
    converge: an update that reports success leaves exactly the current state *)
-Theorem C12_restart_converges : forall e dn, shard_range e ->
-  forall s l fs s', wf_batch e dn (i_cfg (restart s)) l -> armed fs FReloadSilent = false ->
+Theorem C12_restart_converges : forall e, shard_range e ->
+  forall s l fs s', wf_batch e (i_cfg (restart s)) l -> armed fs FReloadSilent = false ->
     step_f e fs (restart s) l = (s', false) ->
     disk_ok e (i_cfg s') (i_disk s') /\
     (inline e = true -> exists r, i_running s' = Some r /\ disk_ok e (i_cfg s') r).
 Proof. exact restart_converges. Qed.
 Print Assumptions C12_restart_converges.
 
-Theorem C12_restart_then_history : forall e dn, shard_range e ->
-  forall s h, wf_hist e dn (restart s) h ->
-  forall l fs s', wf_batch e dn (i_cfg (run_f e (restart s) h)) l -> armed fs FReloadSilent = false ->
+Theorem C12_restart_then_history : forall e, shard_range e ->
+  forall s h, wf_hist e (restart s) h ->
+  forall l fs s', wf_batch e (i_cfg (run_f e (restart s) h)) l -> armed fs FReloadSilent = false ->
     step_f e fs (run_f e (restart s) h) l = (s', false) ->
     disk_ok e (i_cfg s') (i_disk s').
 Proof. exact restart_then_history. Qed.
@@ -102,9 +102,9 @@ Print Assumptions C12_restart_witness.
    update reports success, the files are right, nothing is retried, and what the running
    haproxy has loaded is not the current state (it keeps a backend that is gone) *)
 Theorem C12_silent_reload_drop_refuted :
-  exists e dn h l fs s',
-    shard_range e /\ inline e = true /\ wf_hist e dn inst_empty h /\
-    wf_batch e dn (i_cfg (run_f e inst_empty h)) l /\
+  exists e h l fs s',
+    shard_range e /\ inline e = true /\ wf_hist e inst_empty h /\
+    wf_batch e (i_cfg (run_f e inst_empty h)) l /\
     step_f e fs (run_f e inst_empty h) l = (s', false) /\
     disk_ok e (i_cfg s') (i_disk s') /\
     forall r, i_running s' = Some r -> ~ disk_ok e (i_cfg s') r.
